@@ -1,0 +1,50 @@
+//go:build verif
+
+// Contract for exponentiation by an arbitrary integer (comment-only; installed by /verif/gcv gen-contracts).
+// Layer "ring Element bigint big.Int": elements of an abstract commutative ring, *big.Int cells hold mathematical
+// integers. rpow(x, n) = x^n for n >= 0 is defined by recursion on n; hi(e, i) = floor(e / 2^i) by recursion on i;
+// BitLen(e) = L is characterised for e > 0 by hi(e, L-1) = 1 (documented meaning of math/big.Int.BitLen and Bit).
+// The square-and-multiply loop keeps z = x'^hi(e, i+1); the step uses the lemma rpow(x, 2h) = rpow(x, h)^2, which
+// is proved by induction in the theorem block below (base and step are separate obligations over arbitrary constants x, h, proved
+// from the definition of rpow only) and then used as an axiom by the loop obligations.
+// Result: z = x^k for k >= 0 and z = inv(x)^(-k) for k < 0, with z = 1 for k = 0.
+
+package fr
+
+//@ theorem powdouble
+//@ smt (define-fun-rec rpow ((x Int) (n Int)) Int (ite (<= n 0) 1 (* x (rpow x (- n 1)))))
+//@ smt (declare-const x Int)
+//@ smt (declare-const h Int)
+//@ goal[base] (= (rpow x 0) (* (rpow x 0) (rpow x 0)))
+//@ goal[step] (=> (and (>= h 0) (= (rpow x (* 2 h)) (* (rpow x h) (rpow x h)))) (= (rpow x (+ (* 2 h) 2)) (* (rpow x (+ h 1)) (rpow x (+ h 1)))))
+//@ end
+
+//@ func Element.Exp
+//@ layer ring Element bigint big.Int
+//@ option opaque Get Put
+//@ smt (declare-fun rpow (Int Int) Int)
+//@ smt (assert (forall ((x Int) (n Int)) (! (=> (<= n 0) (= (rpow x n) 1)) :pattern ((rpow x n)))))
+//@ smt (assert (forall ((x Int) (n Int)) (! (=> (> n 0) (= (rpow x n) (* x (rpow x (- n 1))))) :pattern ((rpow x n)))))
+//@ smt (assert (forall ((x Int) (h Int)) (! (=> (>= h 0) (= (rpow x (* 2 h)) (* (rpow x h) (rpow x h)))) :pattern ((rpow x (* 2 h))))))
+//@ smt (declare-fun big.hi (Int Int) Int)
+//@ smt (assert (forall ((e Int) (i Int)) (! (=> (<= i 0) (= (big.hi e i) e)) :pattern ((big.hi e i)))))
+//@ smt (assert (forall ((e Int) (i Int)) (! (=> (> i 0) (= (big.hi e i) (div (big.hi e (- i 1)) 2))) :pattern ((big.hi e i)))))
+//@ smt (assert (forall ((e Int) (i Int)) (! (=> (>= e 0) (>= (big.hi e i) 0)) :pattern ((big.hi e i)))))
+//@ smt (declare-fun big.bitlen (Int) Int)
+//@ smt (assert (forall ((e Int)) (! (=> (> e 0) (and (>= (big.bitlen e) 1) (= (big.hi e (- (big.bitlen e) 1)) 1))) :pattern ((big.bitlen e)))))
+//@ smt-fun rpow Int
+//@ ghost kk = *k
+//@ ghost xx = ite(*k < 0, inv(x), x)
+//@ ghost ee = ite(*k < 0, -*k, *k)
+//@ loop 0
+//@ + invariant[range] -1 <= i && i <= bitlen(ee) - 2
+//@ + invariant[halves] bighi(ee, i+1) >= 0
+//@ + invariant[double] ufint_rpow(xx, 2 * bighi(ee, i+1)) == ufint_rpow(xx, bighi(ee, i+1)) * ufint_rpow(xx, bighi(ee, i+1))
+//@ + invariant[odd] ufint_rpow(xx, 2 * bighi(ee, i+1) + 1) == xx * ufint_rpow(xx, 2 * bighi(ee, i+1))
+//@ + invariant[step] i >= 0 ==> bighi(ee, i) == 2 * bighi(ee, i+1) + bighi(ee, i) % 2
+//@ + invariant[power] *z == ufint_rpow(xx, bighi(ee, i+1))
+//@ ensures[zero] kk == 0 ==> *z == 1
+//@ ensures[value] kk != 0 ==> *z == ufint_rpow(xx, ee)
+//@ ensures[result] result == z
+//@ modifies z
+//@ end
